@@ -150,6 +150,7 @@ inductive Call where
   | isLink (p : Path)                                -- lstat: is the node at p itself a symlink?
   | mkTempLink (dir : Path) (t : Target)             -- a symlink to t under a fresh name in dir
   | renameLink (src dst : Path)                      -- rename(2) of a symlink (`rename` is the regular-file case)
+  | sameFile (p : Path) (t : Target)                 -- canonicalize(p) == canonicalize(t), both existing
   deriving Repr
 
 inductive Ret where
@@ -311,6 +312,10 @@ def exec (env : Env) (fs : FS) : Call → FS × Ret
       let p := dir ++ [tmpName fs.next]
       ({ (fs.put p (.link t)) with next := fs.next + 1 }, .path p)
     else (fs, .err .notFound)
+  | .sameFile p t =>
+    match FS.resolve fs FS.resolveFuel p, FS.resolve fs FS.resolveFuel (FS.targetPath p t) with
+    | some a, some b => (fs, .bool (a == b && (fs.get a).isSome))
+    | _, _ => (fs, .bool false)
   | .renameLink src dst =>
     match fs.get src with
     | some (.link t) =>
@@ -321,7 +326,7 @@ def exec (env : Env) (fs : FS) : Call → FS × Ret
 
 /-- Does the call change the filesystem at all (used by C15 "reads do not mutate")? -/
 def Call.mutating : Call → Bool
-  | .readFile _ | .existsF _ | .sizeOf _ | .walk _ | .readDir _ | .now | .isLink _ => false
+  | .readFile _ | .existsF _ | .sizeOf _ | .walk _ | .readDir _ | .now | .isLink _ | .sameFile _ _ => false
   | _ => true
 
 /-- The paths a call may create, change or delete. -/
